@@ -9,12 +9,13 @@ ASSUME = gocheck.GOSYM_ASSUME + [
     'KERNEL oracle: value = sum digit_k * base^k computed in 64-bit unsigned arithmetic (digit counts bounded so that it cannot overflow); accepted <=> value in the range of the type',
     'the accept/reject decision for the 128/256-bit types is not decided (HarnessC10Big exists but its queries mix bv2nat and integer arithmetic and do not finish)',
     'GENERATED CODE (wide literal templates): contracts for ferret_{i,u}{128,256}_{from_string,from_i64,from_u64,to_i64,eq,lt,gt}_ptr in lirsym/rtsum.py (from_string on the concrete literal text = its value mod 2^N); discharged against bigint.c by C16 (from_string for short texts + the accumulation step, comparisons, conversions)',
+    'HarnessC10Sequence: two range checks in one compilation (boundary literal texts of one width against its signed and unsigned type, either order): each verdict is the mathematical one whatever was checked before (the check is memoryless)',
     'the lexer NumberPattern and literal positions other than a let initialiser are outside this check',
 ] + TV_ASSUME[1:3]
 
 
 def post(rep, templates, results):
-    groups = [dict(pkg='compiler/internal/semantics/typechecker', rel='internal/semantics/typechecker', harnesses=['HarnessC10Small', 'HarnessC10LeadingZero'])]
+    groups = [dict(pkg='compiler/internal/semantics/typechecker', rel='internal/semantics/typechecker', harnesses=['HarnessC10Small', 'HarnessC10LeadingZero', 'HarnessC10Sequence'])]
     for g in groups:
         try:
             rs = gosymrun.run(g['pkg'], g['harnesses'], max_paths=100000, timeout_ms=20000, wall_timeout=1700)
